@@ -24,7 +24,6 @@ ENV_CALLS = {"time", "gettimeofday", "clock_gettime", "rand", "random", "srand",
 ENV_ALLOWED = {
     ("get_source_date_epoch", "getenv"): "SOURCE_DATE_EPOCH is the documented reproducibility input",
     ("os_get_num_jobs", "sched_getaffinity"): "default job count; shown below to reach only the worker count",
-    ("dir_next", "readdir"): "native directory iterator: enumeration order is normalised by the sorted tree (C11)",
     ("process_command_line", "isatty"): "refusing to write an archive to a terminal",
 }
 SEQ_FIELDS = ("io_seq_num", "io_deq_seq_num", "backlog", "frag_block", "fblk_in_flight", "blk_current", "free_list",
@@ -123,6 +122,18 @@ def rule_c_env(chk, progs):
                 inst = "%s:%s" % (f.name, nm)
                 if (f.name, nm) in ENV_ALLOWED:
                     chk.exception("K2-env", inst, c, ENV_ALLOWED[(f.name, nm)])
+                elif nm in ("readdir", "readdir64", "scandir"):
+                    # the set of names is input; only their order is host state.  Accepted iff C11's A3-source rule proves
+                    # the order is erased (names copied out, sorted by a proven total order before anything observes them)
+                    from .c11 import rule_source, _Sub
+                    sub = _Sub(chk)
+                    sub.broke = lambda *a: None
+                    src, _n = rule_source(sub, prog)
+                    st = src.get(f.unit.src)
+                    if st and st[0]:
+                        chk.ok("K2-env", inst, c, "directory enumeration whose order is erased before use (A3-source of C11 holds here)")
+                    else:
+                        chk.violation("K2-env", inst, c, "the packer takes the host's directory enumeration order as it comes (C11 A3-source fails)")
                 else:
                     chk.violation("K2-env", inst, c, "the packer queries the environment with %s: the image would depend on time, "
                                   "locale, process or host state" % nm)
